@@ -25,22 +25,45 @@ MOD = "coxeter.shapes.polygon"
 _CAND = []      # expressions whose sign is the polygon's orientation (trusted: Green + positivity of squares)
 
 
+_RES_CACHE = {}
+
+
+def _carries_orientation(u):
+    """is u a positive rational multiple of an expression known to carry the orientation sign?"""
+    key = u
+    r = _RES_CACHE.get(key)
+    if r is None:
+        r = False
+        nu = oblig.normal_form(u)
+        if nu != 0:
+            for cand in _CAND:
+                nc = _RES_CACHE.get(("cand", cand))
+                if nc is None:
+                    nc = oblig.normal_form(cand)
+                    _RES_CACHE[("cand", cand)] = nc
+                q = sp.cancel(sp.together(nu / nc))
+                if q.is_Rational and q > 0:
+                    r = True
+                    break
+            if not r:
+                for cand in _CAND:
+                    if any(oblig.normal_form(u - m * cand) == 0
+                           for m in (sp.Rational(1, 2), 1, sp.Rational(1, 12), sp.Rational(1, 24))):
+                        r = True
+                        break
+        _RES_CACHE[key] = r
+    return r
+
+
 def _resolve(e, s):
-    """eliminate Abs / sign atoms whose argument is (a positive multiple of) an expression known to carry the
-    orientation sign s = +-1:  Abs(u) -> s*u,  sign(u) -> s.  The match u == m*cand is decided by normal form."""
+    """eliminate Abs / sign atoms whose argument is a positive multiple of an expression known to carry the
+    orientation sign s = +-1:  Abs(u) -> s*u,  sign(u) -> s.  The match is decided by normal forms."""
     e = sp.sympify(e)
     rep = {}
     for atom in e.atoms(sp.Abs, sp.sign):
         u = atom.args[0]
-        done = False
-        for cand in _CAND:
-            for m in (1, sp.Rational(1, 2), sp.Rational(1, 12), sp.Rational(1, 24), sp.Rational(1, 6), 2):
-                if oblig.normal_form(u - m * cand) == 0:
-                    rep[atom] = s * u if isinstance(atom, sp.Abs) else sp.Integer(s)
-                    done = True
-                    break
-            if done:
-                break
+        if _carries_orientation(u):
+            rep[atom] = s * u if isinstance(atom, sp.Abs) else sp.Integer(s)
     return e.xreplace(rep) if rep else e
 
 
@@ -83,6 +106,7 @@ def run(chk):
     polar = sgn * G.fan(X**2 + Y**2)
     # positivity of integrals of squares over the region (trusted mathematics, see above)
     pos = [sp.Ge(sgn * G.fan(X**2), 0), sp.Ge(sgn * G.fan(Y**2), 0), sp.Ne(A2, 0)]
+    _RES_CACHE.clear()
     _CAND[:] = [A2, G.fan(X**2), G.fan(Y**2), G.fan((X - cx)**2), G.fan((Y - cy)**2)]
 
     fk_sa = chk.function(MOD, "Polygon.signed_area[get]")
@@ -95,79 +119,124 @@ def run(chk):
     fk_al = chk.function(MOD, "_align_points_by_normal")
     fk_ro = chk.function("coxeter.shapes.utils", "rotate_order2_tensor")
 
-    for chart in charts:
+    def set_chart(chart):
         symnp.IDEAL.update({"G": gb, "syms": gsyms} if chart == "so3" else {"G": None, "syms": ()})
 
+    def make_state(chart):
         def state():
             o, R = G.polygon(shapes, chart)
             G.install_kabsch(R, chart)
             return o, R
+        return state
 
-        # ---------------------------------------------------------------- signed area / area / perimeter
-        def run_a():
-            o, R = state()
-            return o.signed_area, o.area, o.perimeter
-        for p in chk.explore(fk_sa, run_a, assumptions=facts):
-            t = f"{chart}:{path_tag(p)}"
-            sa, ar, pe = (ex(v) for v in p.value)
-            _eq(chk, f"signed_area:post[{t}]", fk_sa, p.pc, sa, A2 / 2, replay=replay_polygon("signed_area"))
-            _eq(chk, f"area:post[{t}]", fk_ar, p.pc, ar, area, replay=replay_polygon("area"))
-            _eq(chk, f"perimeter:post[{t}]", fk_pe, p.pc, pe, perim, replay=replay_polygon("perimeter"))
+    def sec_a(chart):
+        def task(chk):
+            set_chart(chart)
+            state = make_state(chart)
 
-        # ---------------------------------------------------------------- centroid
-        def run_c():
-            o, R = state()
-            return o.centroid, R
-        for p in chk.explore(fk_ce, run_c, assumptions=facts + [sp.Ne(A2, 0)]):
-            t = f"{chart}:{path_tag(p)}"
-            cen, R = p.value
-            for j in range(3):
-                spec = cx * R[0, j] + cy * R[1, j] + G.dd * R[2, j]
-                _eq(chk, f"centroid:post[{'xyz'[j]}][{t}]", fk_ce, p.pc, ex(cen[j]), spec,
-                    replay=replay_polygon("centroid"))
+            def run_a():
+                o, R = state()
+                return o.signed_area, o.area, o.perimeter
+            for p in chk.explore(fk_sa, run_a, assumptions=facts):
+                t = f"{chart}:{path_tag(p)}"
+                sa, ar, pe = (ex(v) for v in p.value)
+                _eq(chk, f"signed_area:post[{t}]", fk_sa, p.pc, sa, A2 / 2, replay=replay_polygon("signed_area"))
+                _eq(chk, f"area:post[{t}]", fk_ar, p.pc, ar, area, replay=replay_polygon("area"))
+                _eq(chk, f"perimeter:post[{t}]", fk_pe, p.pc, pe, perim, replay=replay_polygon("perimeter"))
+        return task
 
-        # ---------------------------------------------------------------- planar / polar moments
-        def run_m():
-            o, R = state()
-            return o.planar_moments_inertia, o.polar_moment_inertia
-        for p in chk.explore(fk_pm, run_m, assumptions=facts + pos):
-            t = f"{chart}:{path_tag(p)}"
-            (ix, iy, ixy), po = p.value
-            if chart == "xy":
-                # the property pins I_x, I_y, I_xy for polygons in the xy-plane with +z normal
-                _eq(chk, f"moments:Ix[{t}]", fk_pm, p.pc + pos, ex(ix), sgn * G.fan(Y**2), replay=replay_polygon("Ix"))
-                _eq(chk, f"moments:Iy[{t}]", fk_pm, p.pc + pos, ex(iy), sgn * G.fan(X**2), replay=replay_polygon("Iy"))
-                _eq(chk, f"moments:Ixy[{t}]", fk_pm, p.pc + pos, ex(ixy), sgn * G.fan(X * Y), replay=replay_polygon("Ixy"))
-            _eq(chk, f"polar:post[{t}]", fk_po, p.pc + pos, ex(po), polar, replay=replay_polygon("polar"))
+    def sec_c(chart):
+        def task(chk):
+            set_chart(chart)
+            state = make_state(chart)
 
-        # ---------------------------------------------------------------- inertia tensor about the origin
-        def run_t():
-            o, R = state()
-            before = (o._vertices, o._vertices.copy(), o._normal, o._normal.copy())
-            it = o.inertia_tensor
-            return it, R, before, (o._vertices, o._normal)
-        for p in chk.explore(fk_it, run_t, assumptions=facts + pos):
-            t = f"{chart}:{path_tag(p)}"
-            it, R, before, after = p.value
-            C = [cx * R[0, j] + cy * R[1, j] + G.dd * R[2, j] for j in range(3)]
-            jc = polar - area * (cx**2 + cy**2)
-            c2 = sum(c * c for c in C)
-            for i in range(3):
-                for j in range(i, 3):
+            def run_c():
+                o, R = state()
+                return o.centroid, R
+            for p in chk.explore(fk_ce, run_c, assumptions=facts + [sp.Ne(A2, 0)]):
+                t = f"{chart}:{path_tag(p)}"
+                cen, R = p.value
+                for j in range(3):
+                    spec = cx * R[0, j] + cy * R[1, j] + G.dd * R[2, j]
+                    _eq(chk, f"centroid:post[{'xyz'[j]}][{t}]", fk_ce, p.pc, ex(cen[j]), spec,
+                        replay=replay_polygon("centroid"))
+        return task
+
+    def sec_m(chart):
+        def task(chk):
+            set_chart(chart)
+            state = make_state(chart)
+
+            def run_m():
+                o, R = state()
+                return o.planar_moments_inertia, o.polar_moment_inertia
+            for p in chk.explore(fk_pm, run_m, assumptions=facts + pos):
+                t = f"{chart}:{path_tag(p)}"
+                (ix, iy, ixy), po = p.value
+                if chart == "xy":
+                    # the property pins I_x, I_y, I_xy for polygons in the xy-plane with +z normal
+                    _eq(chk, f"moments:Ix[{t}]", fk_pm, p.pc + pos, ex(ix), sgn * G.fan(Y**2), replay=replay_polygon("Ix"))
+                    _eq(chk, f"moments:Iy[{t}]", fk_pm, p.pc + pos, ex(iy), sgn * G.fan(X**2), replay=replay_polygon("Iy"))
+                    _eq(chk, f"moments:Ixy[{t}]", fk_pm, p.pc + pos, ex(ixy), sgn * G.fan(X * Y), replay=replay_polygon("Ixy"))
+                _eq(chk, f"polar:post[{t}]", fk_po, p.pc + pos, ex(po), polar, replay=replay_polygon("polar"))
+            for fk, nm in ((fk_al, "_align_points_by_normal"), (fk_ro, "rotate_order2_tensor")):
+                chk.record(f"{nm}:inlined[{chart}]", fk, "proved", "inlined",
+                           detail="body executed as part of its callers' verified text in this chart")
+        return task
+
+    def sec_t(chart, prefix, entry):
+        """inertia tensor: one task per (path, entry); the path is selected by its decision prefix -- the
+        area section of the same chart establishes that these prefixes are all the feasible paths"""
+        def task(chk):
+            set_chart(chart)
+            state = make_state(chart)
+
+            def run_t():
+                o, R = state()
+                before = (o._vertices, o._vertices.copy(), o._normal, o._normal.copy())
+                it = o.inertia_tensor
+                return it, R, before, (o._vertices, o._normal)
+            res = chk.explore(fk_it, run_t, assumptions=facts + pos, only=[prefix])
+            for p in res:
+                if p.decisions != list(prefix):
+                    chk.errors.append(f"inertia_tensor[{chart}]: path {prefix} took decisions {p.decisions}")
+                t = f"{chart}:{path_tag(p)}"
+                it, R, before, after = p.value
+                C = [cx * R[0, j] + cy * R[1, j] + G.dd * R[2, j] for j in range(3)]
+                jc = polar - area * (cx**2 + cy**2)
+                c2 = sum(c * c for c in C)
+                for i, j in (entry,):
                     spec = jc * R[2, i] * R[2, j] + area * ((c2 if i == j else 0) - C[i] * C[j])
                     _eq(chk, f"inertia_tensor:post[{i}{j}][{t}]", fk_it, p.pc + pos, ex(it[i, j]), spec,
                         replay=replay_polygon("inertia_tensor"))
-            # frame (C16): the vertex array the caller may hold is the same object, with the same content
-            v_obj, v_copy, n_obj, n_copy = before
-            same_obj = after[0] is v_obj
-            chk.record(f"inertia_tensor:keeps_vertex_array_object[{t}]", fk_it, "proved" if same_obj else "refuted",
-                       "heap-identity", model={}, replay=replay_polygon("alias"))
-            unchanged = all(sp.expand(to_expr(a) - to_expr(b)) == 0 for a, b in zip(v_obj.inner.reshape(-1), v_copy.inner.reshape(-1)))
-            chk.record(f"inertia_tensor:handed_out_vertices_unchanged[{t}]", fk_it, "proved" if unchanged else "refuted",
-                       "heap-content", model={}, replay=replay_polygon("alias"))
-        for fk, nm in ((fk_al, "_align_points_by_normal"), (fk_ro, "rotate_order2_tensor")):
-            chk.record(f"{nm}:inlined[{chart}]", fk, "proved", "inlined",
-                       detail="body executed as part of its callers' verified text in this chart")
+                if entry != (0, 0):
+                    continue
+                # frame (C16): the vertex array the caller may hold is the same object, with the same content
+                v_obj, v_copy, n_obj, n_copy = before
+                same_obj = after[0] is v_obj
+                chk.record(f"inertia_tensor:keeps_vertex_array_object[{t}]", fk_it, "proved" if same_obj else "refuted",
+                           "heap-identity", model={}, replay=replay_polygon("alias"))
+                unchanged = all(sp.expand(to_expr(a) - to_expr(b)) == 0
+                                for a, b in zip(v_obj.inner.reshape(-1), v_copy.inner.reshape(-1)))
+                chk.record(f"inertia_tensor:handed_out_vertices_unchanged[{t}]", fk_it, "proved" if unchanged else "refuted",
+                           "heap-content", model={}, replay=replay_polygon("alias"))
+        return task
+
+    tasks = []
+    prefixes = {"xy": [()], "so3": [(True, True), (True, False), (False, True), (False, False)]}
+    for chart in charts:
+        for pre in prefixes[chart]:
+            for entry in ((0, 0), (0, 1), (0, 2), (1, 1), (1, 2), (2, 2)):
+                tasks.append((f"{chart}/tensor{pre}{entry}", sec_t(chart, pre, entry)))
+    for chart in charts:
+        tasks += [(f"{chart}/area", sec_a(chart)), (f"{chart}/centroid", sec_c(chart)), (f"{chart}/moments", sec_m(chart))]
+    chk.run_parallel(tasks)
+    set_chart("xy")
+    # the tensor tasks enumerate the decision prefixes found by the area section: check they are the same set
+    seen = {o.name.split("[")[-1].rstrip("]").split(":")[1] for o in chk.obls if o.name.startswith("signed_area:post[so3")}
+    want = {"".join("T" if d else "F" for d in pre) for pre in prefixes["so3"]}
+    if seen != want:
+        chk.errors.append(f"inertia tensor tasks cover paths {sorted(want)} but signed_area has paths {sorted(seen)}")
 
     # ---------------------------------------------------------------- canaries
     chk.canary_eq("canary:signed_area==A2", fk_sa, A2 / 2, A2)
